@@ -88,7 +88,9 @@ func execC09(seg []Ev) []Ev {
 		var toks []*tokenizers.Token
 		oc, det := guarded(func() {
 			t := csv.NewCsvTokenizer()
-			if !(len(seps) == 1 && seps[0] == ',' && len(quotes) == 1 && quotes[0] == '"') { // the default configuration is used as constructed
+			// the configuration a tokenizer has as constructed is used as it is when it is the wanted one (which separators and quote
+			// symbols a new tokenizer starts with is not part of the property)
+			if !(string(t.FieldSeparators()) == string(seps) && string(t.QuoteSymbols()) == string(quotes)) {
 				// configure quotes / separators in an order that never makes them collide with the defaults
 				t.SetFieldSeparators([]rune{0x1})
 				t.SetQuoteSymbols(quotes)
